@@ -255,7 +255,18 @@ def ob_prop(skeleton, transform, mode, budget_s=60.0, max_paths=400, annotate=No
                 return
             try:
                 out2 = run(text)
-                other = get_transform("format_code:safe=1")(text) if not transform.startswith("format_code") else None
+                # an interposed history: the same text under another configuration, a pass whose transaction is
+                # rolled back (unparsable replacement), another text - then the call under test again
+                from pyrefact import processing
+
+                get_transform("format_code:safe=1" if "safe=1" not in transform else "format_code:safe=0")(text)
+
+                def _bad_rule(source):
+                    yield core.Range(0, 1), "("
+
+                _bad_rule.__name__ = "bad_rule"
+                processing.fix(_bad_rule)(text)
+                run("zz = 1\nif zz > 7000:\n    print(zz)\n")
                 out3 = run(text)
             except Exception:  # noqa: BLE001
                 stats["crash"] += 1
